@@ -1188,6 +1188,9 @@ func (env *Env) applyContract(fi *FuncInfo, recv *Val, args []Val, st *State, ca
 	// creates no obligation; its postcondition is available where its precondition holds
 	specCtx := env.contract || env.ghostBody || len(env.qvars) > 0
 	for k, r := range con.Requires {
+		if len(r.Props) > 0 && c.e.curProp != "" && !has(r.Props, c.e.curProp) {
+			continue
+		}
 		g := pre.evalBool(r.Expr, st)
 		preTerms = append(preTerms, g)
 		if !c.noSafety && !specCtx {
@@ -1250,6 +1253,9 @@ func (env *Env) applyContract(fi *FuncInfo, recv *Val, args []Val, st *State, ca
 	post.callerSide = true
 	post.qvars, post.qnames = env.qvars, env.qnames
 	for _, en := range con.Ensures {
+		if len(en.Props) > 0 && c.e.curProp != "" && !has(en.Props, c.e.curProp) {
+			continue // clause scoped to other properties: not used in this check
+		}
 		if con.Pure && specCtx {
 			// a pure function written in a specification is opaque: only the function term;
 			// its postcondition becomes available where the code calls it
